@@ -9,7 +9,7 @@ CHECKS = {
    note="Trusted: TLC + Json module, httptest.ResponseRecorder with a commit counter as the underlying connection, the 15-operation alphabet.",
    tech="TLA+ spec (Response.tla, Middleware.tla) checked by TLC; spec behaviours replayed into the real HTTP writer"),
  "C12": dict(cat="model_checking", ref="§5 C12",
-   text="TLC model-checks spec/TempVM.tla (Isolation, LifecycleIsLocal, FreshIsBase as action properties, BaseVisibleEverywhere) and prints its state graph; every path up to the bound (1 base + 2 temporary VMs, deliberate name collisions) is replayed on real VM/TempVM objects — definitions made through a parser bound to the VM as requests do — with the resolve table of every live VM compared after every step through the Go API and through scripts (class_exists/new/call); long walks (40 steps, 4 temps, 8 names) come from TLC -simulate with a history variable.",
+   text="TLC model-checks spec/TempVM.tla (Isolation, LifecycleIsLocal, FreshIsBase as action properties, BaseVisibleEverywhere) and prints its state graph; every path up to the bound (1 base + 2 temporary VMs, deliberate name collisions) is replayed on real VM/TempVM objects — definitions made through a parser bound to the VM as requests do — with the resolve table of every live VM compared after every step through the Go API and through scripts (class_exists/new/call), with temporary VMs created both by NewTempVM and as the request VMs of parked HotHandler requests; long walks (40 steps, 4 temps, 8 names) come from TLC -simulate with a history variable.",
    note="Trusted: TLC + Json module; resolvability (not which colliding definition wins) is the compared observable.",
    tech="TLA+ spec (TempVM.tla) checked by TLC; state-graph paths and simulated walks replayed on real VMs"),
  "C09": dict(cat="model_checking", ref="§5 C09",
@@ -20,6 +20,10 @@ CHECKS = {
    text="TLC model-checks spec/RegistryLocks.tla (the RWMutex discipline around the registry maps: pinned lock modes are refuted, repaired ones satisfy NoConcurrentMapWrite/NoAccessDuringWrite for 3 goroutines); the real VM is then stressed per lock class under the race detector (fresh names keep writers writing), and call/return histories recorded from 4..16 goroutines are split per name and validated by TLC against spec/RegistryLin.tla, the atomic reference (duplicate rejected for all but one registrant, success visible to all later lookups, first-writer-wins constants, identity-stable globals).",
    note="Trusted: Go race detector / concurrent-map check as observation instruments; recorder orders call/return events under one mutex (pass 2 only).",
    tech="TLA+ lock-discipline spec checked by TLC; recorded concurrent histories trace-validated (linearizability) against RegistryLin.tla; -race stress"),
+ "C11": dict(cat="model_checking", ref="§5 C11",
+   text="TLC model-checks spec/Superglobals.tla: the per-request cache design satisfies OwnDataOnly, the pinned process-wide cache (named deviation) is refuted. The state graph (2 requests x 2 superglobal reads, all 625 read programs, every interleaving) is forced through Go gates registered into the VM on a real Server/ServeMux; each read is compared with the reference (own data) and, if wrong, with the deviation layer's prediction for that very interleaving (equal => the listed known finding, different => VIOLATION). Responses of 500..5000 parallel requests (2..64 in flight) against handlers using locals, loops, arrays, objects, closures, recursion and the request object are compared with the same requests run alone.",
+   note="Trusted: gates/whoami are harness functions registered in the VM (request = goroutine). The superglobal cache defect is a recorded known finding, matched per interleaving by the deviation layer; the parallel part does not run under -race because the known defect itself is a data race on package variables.",
+   tech="TLA+ spec (Superglobals.tla, reference + deviation layer) checked by TLC; all interleavings of its graph forced on a real HTTP server through gates; parallel-vs-alone replay"),
 }
 NOT_YET = "check not built yet in this round (planned: TLA+ spec + conformance binding, see DESIGN.md §5)"
 def main():
